@@ -671,8 +671,17 @@ class Interp:
             elem = self.materialise(("sym", f"{base}[{k}]", et), s1)
         return elem
 
+    def prune(self, v: Term, st: State) -> Term:
+        """A two-way choice whose condition the path has already decided is the chosen branch."""
+        while isinstance(v, tuple) and len(v) == 4 and v[0] == "ite":
+            d = decided_by(st.pc, v[1])
+            if d is None:
+                break
+            v = v[2] if d else v[3]
+        return v
+
     def st_For(self, node: ast.For, st: State, ctx: Ctx) -> List[Tuple[State, Any]]:
-        itv = self.eval(node.iter, st, ctx)
+        itv = self.prune(self.eval(node.iter, st, ctx), st)
         out: List[Tuple[State, Any]] = []
         flushed = self._flush(st, ctx, node)
         for s, sig in flushed:
@@ -1229,6 +1238,10 @@ class Interp:
             return v
         if t == "structobj" and is_c(v[1]):
             return v
+        if t == "sliceobj" and all(is_c(x) for x in v[1:]):
+            return v
+        if t == "lambda" and len(v) == 5 and not v[4]:
+            return v      # a closure that captures nothing (operator.attrgetter("x") and the like)
         return None
 
     # ------------------------------------------------------------------
@@ -1320,7 +1333,7 @@ class Interp:
             info = self.prog.enum_of(ref)
             if attr == "name":
                 return c(ref.member)
-            if attr in info.attrs and not (isinstance(info.attrs[attr], tuple)):
+            if attr in info.attrs and not (isinstance(info.attrs[attr], tuple) and info.attrs[attr][0] == "opaque"):
                 return self.lift(info.attr(ref.member, attr))
             ci = self.prog.cls(ref.cls)
             m = ci.find_method(attr)
@@ -1372,7 +1385,7 @@ class Interp:
             if isinstance(typ, tuple) and typ and typ[0] == "enum":
                 ci = self.prog.cls(typ[1])
                 assert ci.enum is not None
-                if attr in ci.enum.attrs and not isinstance(ci.enum.attrs[attr], tuple):
+                if attr in ci.enum.attrs and not (isinstance(ci.enum.attrs[attr], tuple) and ci.enum.attrs[attr][0] == "opaque"):
                     alts = tuple(ci.enum.attr(m, attr) for m in ci.enum.members)
                     return ("eattr", base, attr, alts)
                 if attr == "name":
@@ -1456,7 +1469,8 @@ class Interp:
             return self.call(fv[1], list(fv[2]) + args, kwargs, st, ctx, node, awaited)
         if t == "sym" or t == "modvar":
             # call of an opaque callable (user callback, factory...)
-            return self.external_call(T.show(fv) if t == "sym" else f"{fv[2]}", args, kwargs, st, ctx, node, awaited)
+            # a user callback / factory is the environment; a module-level object the analyser could not evaluate is not
+            return self.external_call(T.show(fv) if t == "sym" else f"{fv[2]}", args, kwargs, st, ctx, node, awaited, opaque=(t == "modvar"))
         raise AnalysisError(f"call of non-callable {T.show(fv)} at {ctx.loc(node)}")
 
     def external_call(self, target: str, args: List[Term], kwargs: Dict[str, Term], st: State, ctx: Ctx, node: ast.AST, awaited: bool, result: Optional[Term] = None, opaque: bool = False) -> Term:
@@ -1580,9 +1594,13 @@ class Interp:
         # comparison of a two-valued choice with a constant distributes over the choice
         if name in ("==", "!=", "is", "is not"):
             for x, y in ((a2, b2), (b2, a2)):
-                if x[0] == "ite" and _known(y) and _known(x[2]) and _known(x[3]):
+                if x[0] == "ite" and _known(y):
                     fa, fb = fold_cmp(name, x[2], y), fold_cmp(name, x[3], y)
                     if fa is not None and fb is not None:
+                        if fa and not fb:
+                            return x[1]
+                        if fb and not fa:
+                            return neg(x[1])
                         return ite(x[1], c(fa), c(fb))
         if name in ("in", "not in"):
             r = self.lib.membership(self, a2, b2, st, ctx, node)
@@ -1688,7 +1706,7 @@ class Interp:
         if len(node.generators) != 1 or node.generators[0].is_async:
             raise AnalysisError(f"unsupported comprehension at {ctx.loc(node)}")
         g = node.generators[0]
-        itv = self.eval(g.iter, st, ctx)
+        itv = self.prune(self.eval(g.iter, st, ctx), st)
         items = self.iter_items(itv, st, ctx, node)
         if g.ifs and items is not None:
             # concrete items: keep those whose filter is decided true; a filter that stays symbolic gives a
